@@ -65,16 +65,27 @@ def judge_sweep_case(c):
     return f
 
 
-def run_sweep(res, probe, names, only=None):
-    rc, out, err = C.run_exe(probe, ['sweep'] + ([only] if only else []), '', timeout=1800, env=P.PROBE_ENV)
+CYCLE_KEY = 'cycle:unnamed-class-self-base'
+
+
+def run_sweep(res, probe, names, only=None, mode='sweep'):
+    """mode 'sweep': one node per category; mode 'cycles': graphs cyclic along printed operands and their acyclic neighbours.
+    An overflow on a `Cycle*` graph is reported under the one stable key CYCLE_KEY (a known finding: the graph is outside the
+    hypothesis of theorem C18_fuel); every other crash is an ordinary violation."""
+    rc, out, err = C.run_exe(probe, [mode] + ([only] if only else []), '', timeout=1800, env=P.PROBE_ENV)
     cases = parse_sweep(out)
     stats = {'cases': len(cases), 'kinds': len({c['kind'] for c in cases}), 'categories_offered': sorted({names[c['cat']] for c in cases if c['cat'] < len(names)}),
              'outcomes': {}, 'model_compared': 0}
     if rc != 0 or not cases or not out.rstrip().endswith('kinds'):
-        res.violation('crash:sweep', 'the sweep driver itself stopped (exit %s)\n%s' % (rc, err[-2500:]), 'sweep')
+        res.violation('crash:' + mode, 'the %s driver itself stopped (exit %s)\n%s' % (mode, rc, err[-2500:]), mode)
         return stats
     requests = []
+    overflow = []
     for c in cases:
+        if mode == 'cycles' and c['kind'].startswith('Cycle') and not c['outcome'].startswith('done'):
+            overflow.append(c)
+            stats['outcomes']['CRASH'] = stats['outcomes'].get('CRASH', 0) + 1
+            continue
         for r in c['results']:
             s = P.field(r, 'status')
             stats['outcomes'][s] = stats['outcomes'].get(s, 0) + 1
@@ -82,12 +93,28 @@ def run_sweep(res, probe, names, only=None):
             stats['outcomes']['CRASH'] = stats['outcomes'].get('CRASH', 0) + 1
         findings = judge_sweep_case(c)
         for key, msg in findings[:1]:
-            res.violation(key, msg, 'sweep %s' % c['kind'])
+            res.violation(key, msg, '%s %s' % (mode, c['kind']))
         if not findings and c['dump']:
             for r in c['results']:
                 loc = P.field(r, 'loc')
                 line = re.sub(r' flags_same=\d', '', re.sub(r'^result loc=\d ', '', r))
                 requests.append((c['dump'], 'print n0 %s loc=%s base=10' % (c['route'], loc), line, c))
+    if overflow:
+        by = {}
+        for c in overflow:
+            by.setdefault(c['kind'], []).append('xpr_' + c['route'])
+        stats['cyclic_graph_overflows'] = by
+        res.violation(CYCLE_KEY,
+                      'printing a class whose base type is a Forall with that class as target does not return (stack overflow in a forked '
+                      'child with an 8 MiB stack). Construction: c = make_class(global region) [name set or not: both overflow]; '
+                      'f = get_forall(get_product({}), c); c.declare_base(f); S = declare_type("S", class_type()) with init = c. '
+                      'xpr_type_expr_visitor::visit(Forall) prints its target through xpr_type_expr (the class body), whose base list prints f '
+                      'again. Overflowing (node, route): %s. Not overflowing: xpr_* of the class itself (prints its name / logic_error when '
+                      'unnamed), xpr_expr of the type declaration (prints "S"), and base types product(c) / function(product(c)) -> int, where '
+                      'the class is reached through xpr_type (name, or logic_error when unnamed). The graph is cyclic along printed operands: '
+                      'outside the hypothesis `Ranked` of theorem C18_fuel (C18_cyclic_class_outside_hypothesis shows the model exhausts every '
+                      'fuel on it).' % '; '.join('%s: %s' % (k, ', '.join(v)) for k, v in sorted(by.items())),
+                      'cycles')
     if requests:
         lines, _ = P.run_model_requests('c18', requests, names)
         seen = set()
@@ -101,7 +128,7 @@ def run_sweep(res, probe, names, only=None):
                                   'the implementation outcome itself satisfies the statement of C18 (text or logic_error, flags, indentation, '
                                   'alphabet), so the theorems no longer speak about this code'
                                   % (c['kind'], c['route'], P.text_of(line)[:200], line.split(' ', 1)[1], P.text_of(ml)[:200] if ml.startswith('text=') else b'', ml.split(' ', 1)[1] if ' ' in ml else ml),
-                                  'correspondence: harness/printprobe.cxx (sweep) vs lean/IprModel/Printer.lean (theorems IprProps/C18.lean)\nsweep %s' % c['kind'],
+                                  'correspondence: harness/printprobe.cxx (%s) vs lean/IprModel/Printer.lean (theorems IprProps/C18.lean)\n%s %s' % (mode, mode, c['kind']),
                                   found_input=False)
     return stats
 
@@ -236,6 +263,7 @@ def run(tier):
     names = P.cat_names()
 
     sweep = run_sweep(res, probe, names)
+    cycles = run_sweep(res, probe, names, mode='cycles')
     groups = gen_scripts(tier, rng)
     scripts = [s for g in groups.values() for s in g]
     nchunks = 4 if tier == 'quick' else 12
@@ -256,7 +284,10 @@ def run(tier):
     for s_ in stats:
         for k, v in s_.get('findings', {}).items():
             fnd[k] = fnd.get(k, 0) + v
-    res.cov['traces_validated_against_impl'] = sweep['model_compared'] + sum(s['model_compared'] for s in stats)
+    res.cov['traces_validated_against_impl'] = sweep['model_compared'] + cycles['model_compared'] + sum(s['model_compared'] for s in stats)
+    res.cov['cyclic_graph_cases'] = cycles['cases']
+    res.cov['cyclic_graph_outcomes'] = cycles['outcomes']
+    res.cov['cyclic_graph_overflows(known finding %s)' % CYCLE_KEY] = cycles.get('cyclic_graph_overflows', {})
     res.cov['sweep_kind_route_pairs'] = sweep['cases']
     res.cov['sweep_kinds'] = sweep['kinds']
     res.cov['sweep_outcomes'] = sweep['outcomes']
@@ -271,6 +302,11 @@ def run(tier):
     res.sample({'literal': literal_script('quick')[2:8]})
     res.sample({'nesting': nesting_script(['if', 'try'], 3, random.Random(0))})
     res.assumptions += [
+        'theorem C18_fuel assumes the graph is acyclic along printed operands (a rank decreasing along every stored address; only a built-in '
+        'type may be its own operand). A class whose base type is a Forall targeting that class (named or not), or a member type declaration '
+        'whose initializer is the enclosing class, violates that hypothesis: the real printer overflows its stack and the model exhausts every '
+        'fuel (C18_cyclic_class_outside_hypothesis). The first is run in a forked child and reported as known finding ' + CYCLE_KEY + '; a cycle that '
+        'passes through xpr_type of a NAMED class is cut (the name is printed), through an unnamed one it ends in logic_error',
         'categories_never_offered are not expressions and cannot be passed to xpr_* (Annotation, Region, Comment, String, Unit; the name categories, which the sweep prints as names of Id_expr nodes) or have no factory (Deduction_guide, Unknown)',
         'stack depth is observed in forked children with an 8 MiB stack (ASan build: larger frames than production), not proved; the theorem bounds the number of nested accepts',
         'std::ostream is trusted; only basefield / fill / precision / flags are read back; width, showbase, uppercase, locale are not modelled',
@@ -290,11 +326,11 @@ def replay(path):
     probe = C.build_harness('printprobe', 'asan')
     names = P.cat_names()
     bad = False
-    sweeps = [l for l in lines if l.startswith('sweep')]
-    cmds = [l for l in lines if not l.startswith('sweep')]
+    sweeps = [l for l in lines if l.split()[0] in ('sweep', 'cycles')]
+    cmds = [l for l in lines if l.split()[0] not in ('sweep', 'cycles')]
     for sw in sweeps:
         w = sw.split()
-        rc, out, err = C.run_exe(probe, ['sweep'] + w[1:2], '', timeout=1800, env=P.PROBE_ENV)
+        rc, out, err = C.run_exe(probe, w[0:2], '', timeout=1800, env=P.PROBE_ENV)
         cases = parse_sweep(out)
         reqs = []
         for c in cases:
